@@ -27,6 +27,13 @@ var sigHdrDefs = []sigHdrDef{
 	{"User-Agent", "", "ua/1.0 (x)", sipsp.HdrUA},
 }
 
+// alternative values of fingerprinted strings whose character-class signature is zero or minimal
+var sigValVariants = map[sipsp.HdrT][]string{
+	sipsp.HdrVia:    {"SIP/2.0/UDP h;branch=z9hG4bKabc", "SIP/2.0/UDP h:5060;rport"},
+	sipsp.HdrCallID: {"abc", "x@y"},
+	sipsp.HdrFrom:   {"<sip:a@b>;tag=t", "sip:a@b"},
+}
+
 var sigRepeatVals = []string{"other-id@9.9.9.9", "<sip:other@x>", "11 %M", "<sip:zz@y>;tag=OTHER+/=", "3", "<sip:o@p>;tag=q", "SIP/2.0/TCP o;branch=zzz.1", "other"}
 
 var fillerLines = []string{"X-F: 1", "Expires: 5", "Route: <sip:r;lr>", "Record-Route: <sip:rr;lr>", "P-Asserted-Identity: <sip:p@q>", "Subject: s"}
@@ -42,6 +49,7 @@ type c19Case struct {
 	Cut     int   // single chunk cut (-1: one shot)
 	Reply   bool
 	Code    string // reply status code (default 200)
+	Var     int    // variant of the fingerprinted strings (Via branch / Call-ID / From tag with an all-zero class signature)
 }
 
 func (cs *c19Case) render() (msg []byte, nh int, want []sipsp.HdrSigId, cid, via string) {
@@ -76,6 +84,9 @@ func (cs *c19Case) render() (msg []byte, nh int, want []sipsp.HdrSigId, cid, via
 			name = d.Compact
 		}
 		val := strings.ReplaceAll(d.Val, "%M", m)
+		if alt, ok := sigValVariants[d.Type]; ok && cs.Var > 0 {
+			val = alt[(cs.Var-1)%len(alt)]
+		}
 		sb.WriteString(name + ": " + val + "\r\n")
 		nh++
 		if d.Type == sipsp.HdrContact && m != "INVITE" {
@@ -312,7 +323,7 @@ func checkC19(r *Run) {
 					cms = []int{0, 1<<len(ord) - 1, (oi*37 + mi*11) % (1 << len(ord)), 0x55 & (1<<len(ord) - 1)}
 				}
 				for _, cm := range cms {
-					base := c19Case{Method: meth, Order: ord, Compact: cm, Repeat: -1, Cap: 40, Cut: -1}
+					base := c19Case{Method: meth, Order: ord, Compact: cm, Repeat: -1, Cap: 40, Cut: -1, Var: (oi + mi + cm) % 3}
 					run(c, &base)
 					if (oi+mi+cm)%r.pick(5, 2) != 0 {
 						continue
@@ -330,10 +341,15 @@ func checkC19(r *Run) {
 						run(c, &v2)
 					}
 					// later repetition of each fingerprinted header
-					for _, h := range ord {
+					for hi, h := range ord {
 						v := base
 						v.Repeat = h
 						run(c, &v)
+						// repetition together with a filler (a filler keeps GetMsgSig from stopping early)
+						v2 := v
+						v2.Fillers = make([]int, len(ord)+1)
+						v2.Fillers[(hi+oi)%(len(ord)+1)] = 1 + (hi+cm)%len(fillerLines)
+						run(c, &v2)
 					}
 					// capacities 0..N+1 and built-in
 					n := len(ord)
